@@ -227,6 +227,7 @@ func (c *Conn) BeginTx(ctx context.Context, opts driver.TxOptions) (driver.Tx, e
 func (c *Conn) Close() error { return c.s.close() }
 
 func (c *Conn) Ping(ctx context.Context) error {
+	atomic.AddInt64(&c.s.e.pings, 1)
 	if c.dead() {
 		return driver.ErrBadConn
 	}
